@@ -69,9 +69,14 @@ def run_complete(ctx, scn):
     opening = OPEN[scn["open"]]
     k = scn.get("typed", 0)
     typed = opening + name[:k]
-    closing_after = bool(scn.get("closing_after")) and opening != ""
-    line = "c0 " + typed + (opening[-1] if closing_after else "")
-    cursor = len("c0 " + typed)
+    ca = scn.get("closing", "no") if opening != "" else "no"
+    if scn.get("closing_after"):
+        ca = "after"
+    closing_after = ca == "after"
+    # "after": the closing quote is already in the line after the cursor; "closed": the user typed the
+    # closing quote too and asks for completions with the cursor right after it
+    line = "c0 " + typed + (opening[-1] if ca != "no" else "")
+    cursor = len("c0 " + typed) + (1 if ca == "closed" else 0)
     begidx = line[:cursor].rfind(" ") + 1
     prefix = line[begidx:cursor]
     obs = {"line": line, "cursor": cursor}
@@ -79,7 +84,7 @@ def run_complete(ctx, scn):
         comps, lprefix = comp.complete(prefix, line, begidx, cursor, ctx={}, multiline_text=line, cursor_index=cursor)
     except Exception as e:  # noqa: BLE001
         obs.update(kind="completer-raised", detail=f"{type(e).__name__}: {e}"[:200], ok=False, inserted="")
-        return {"name": scn["name"], "open": scn["open"], "dir": bool(scn.get("dir")), "typed": k, "closing_after": closing_after, "text": name, "steps": [{"cmd": "complete", "obs": obs}]}
+        return {"name": scn["name"], "open": scn["open"], "dir": bool(scn.get("dir")), "typed": k, "closing": ca, "text": name, "steps": [{"cmd": "complete", "obs": obs}]}
     # the `./` and `../` entries offered for an empty prefix are not the file
     comps = [c for c in comps if str(c).strip().lstrip("rR").strip("'\"") not in ("./", "../")]
     if not comps:
@@ -105,7 +110,7 @@ def run_complete(ctx, scn):
         bad = [r for r in results if not r["ok"]]
         pick = bad[0] if bad else results[0]
         obs.update(kind=pick["kind"] if bad else "ran", ok=not bad, inserted=pick["inserted"], completed_line=pick["completed_line"], argv=pick["argv"], ncomp=len(results))
-    return {"name": scn["name"], "open": scn["open"], "dir": bool(scn.get("dir")), "typed": k, "closing_after": closing_after, "text": name, "steps": [{"cmd": "complete", "obs": obs}]}
+    return {"name": scn["name"], "open": scn["open"], "dir": bool(scn.get("dir")), "typed": k, "closing": ca, "text": name, "steps": [{"cmd": "complete", "obs": obs}]}
 
 
 def run_analyse(ctx, scn):
